@@ -398,15 +398,19 @@ def mac_events(rng, tier):
     evs = []
     tid = 300000
 
+    KEPT = []
+
     class Enc(BaseModel):
         def __init__(self, i, calls, enc_out):
             super().__init__()
             self.i, self.calls, self.enc_out = i, calls, enc_out
+            self.kept = KEPT
 
         def forward(self, x, *a, **k):
             self.calls.append(["enc", self.i])
-            y = x * (self.i + 1) + self.i
+            y = x if getattr(self, "identity", False) else x * (self.i + 1) + self.i      # an identity encoder hands the message itself on (uncoded transmission)
             self.enc_out.append([int(v) for v in y.flatten().tolist()])
+            self.kept.append(y)
             return y
 
     class Dec(BaseModel):
@@ -455,7 +459,11 @@ def mac_events(rng, tier):
                         patterns.append(norm)
             for pat in patterns:
                 calls, enc_out, box = [], [], []
+                del KEPT[:]
                 pool = {i: Enc(i, calls, enc_out) for i in set(pat)}
+                if (len(evs) + U) % 2 == 0:
+                    for e_ in pool.values():
+                        e_.identity = True
                 encs = [pool[i] for i in pat]
                 decs = [Dec(1, calls)] if joint else [Dec(i, calls) for i in range(1, U + 1)]
                 if U == 1 and not joint:
@@ -463,12 +471,16 @@ def mac_events(rng, tier):
                 try:
                     m = MultipleAccessChannelModel(encoders=encs, decoders=decs, channel=Ch(calls), power_constraint=Con(calls, box), num_devices=U)
                     xs = [torch.tensor([[float(rng.randrange(-5, 6)) for _ in range(3)] for _ in range(2)]) for _ in range(U)]
+                    xs0 = [x.clone() for x in xs]
                     m(xs)
                 except Exception as ex:
                     calls = [["raised", 0]]
+                    xs0 = xs = []
                 tid += 1
                 evs.append({"ev": "MacRun", "tid": tid, "encs": pat, "D": 1 if joint else U, "calls": calls, "encoded": enc_out if enc_out else [[0]],
-                            "constraint_in": box[0] if box else []})
+                            "constraint_in": box[0] if box else [],
+                            "encoded_after": [[int(v) for v in y.flatten().tolist()] for y in KEPT] if enc_out else [[0]],
+                            "messages_unchanged": all(torch.equal(a, b) for a, b in zip(xs, xs0))})
     return evs
 
 
